@@ -9,6 +9,9 @@
      admissible aliasing and representation, and every returned entry is compared with TLC's table.
  (2) record direction: self-contained lines (small curves, multi-word subgroups, the bign curves with boundary
      scalars) are recomputed / law-checked by TLC (spec/trace/Trace_EC.tla) over BigNat.
+ The binary curves of src/math/ec2.c (Lopez-Dahab coordinates over GF(2^m)) are decided the same way by checks/C06_ec2.py
+ (ref/EC2.tla, EC2Int / EC2Big / EC2Embed, EC2Vectors, gen/Gen_EC2Small.tla, trace/Trace_EC2.tla, harness/drv_ec2.c): complete
+ curves over subfields GF(2^d) of the fields that gf2Create accepts, the standard DSTU 4145 curves; violation keys `ec2:...`.
 """
 import os, json, glob, re, time
 import vlib
@@ -424,6 +427,22 @@ def record(ctx, tier, drv):
 
 
 def run(ctx):
+    """GF(p) part (below) and binary-curve part (checks/C06_ec2.py) run concurrently; the counts are added up."""
+    import concurrent.futures as cf
+    import C06_ec2
+    with cf.ThreadPoolExecutor(max_workers=1) as ex:
+        f2 = ex.submit(C06_ec2.run_part, ctx)
+        try:
+            run_gfp(ctx)
+        finally:
+            s2, t2, v2 = f2.result()
+    cov = ctx.ev.cov
+    cov["states"] = cov.get("states", 0) + s2
+    cov["transitions"] = cov.get("transitions", 0) + t2
+    cov["traces_validated_against_impl"] = cov.get("traces_validated_against_impl", 0) + v2
+
+
+def run_gfp(ctx):
     ev = ctx.ev
     tier = "quick" if ctx.quick else "thorough"
     t0 = time.time()
